@@ -19,11 +19,76 @@ import (
 	"go/ast"
 	"go/token"
 	"go/types"
+
+	"golang.org/x/tools/go/ast/astutil"
 )
 
+// plainBooleans: `b == true`, `b != false` -> b ; `b == false`, `b != true` -> !b  (the operand is
+// of type bool; the comparison adds nothing).
+func plainBooleans(c *Ctx) int {
+	total := 0
+	for _, p := range c.All {
+		info := p.TypesInfo
+		constBool := func(e ast.Expr) (bool, bool) {
+			tv, ok := info.Types[e]
+			if !ok || tv.Value == nil || tv.Type == nil || !isBoolType(tv.Type) {
+				return false, false
+			}
+			return tv.Value.ExactString() == "true", true
+		}
+		for _, f := range p.Syntax {
+			astutil.Apply(f, nil, func(cur *astutil.Cursor) bool {
+				be, ok := cur.Node().(*ast.BinaryExpr)
+				if !ok || (be.Op != token.EQL && be.Op != token.NEQ) {
+					return true
+				}
+				var operand ast.Expr
+				var k bool
+				if v, isC := constBool(be.Y); isC {
+					operand, k = be.X, v
+				} else if v, isC := constBool(be.X); isC {
+					operand, k = be.Y, v
+				} else {
+					return true
+				}
+				if t := info.TypeOf(operand); t == nil || !isBoolType(t) {
+					return true
+				}
+				if _, isC := constBool(operand); isC {
+					return true
+				}
+				positive := (be.Op == token.EQL) == k
+				var repl ast.Expr = &ast.ParenExpr{Lparen: be.Pos(), X: operand, Rparen: be.End() - 1}
+				if !positive {
+					repl = &ast.UnaryExpr{OpPos: be.Pos(), Op: token.NOT, X: operand}
+				}
+				info.Types[repl] = types.TypeAndValue{Type: types.Typ[types.Bool]}
+				cur.Replace(repl)
+				total++
+				return true
+			})
+		}
+	}
+	return total
+}
+
 func normaliseAST(c *Ctx) int {
-	n := inlineEmbeddedHelpers(c)
-	n += inlineFieldCopies(c)
+	n := 0
+	// twice: a private getter written in the same style (`result = v.f; return result`) is an
+	// accessor only after its own body has been brought to the normal form
+	for round := 0; round < 2; round++ {
+		m := plainBooleans(c)
+		m += inlineEmbeddedHelpers(c)
+		m += rangeDefines(c)
+		m += dropZeroDeclarations(c)
+		m += inlineFieldCopies(c)
+		m += inlineLocalCopies(c)
+		m += threeStepExchanges(c)
+		n += m
+		if m == 0 {
+			break
+		}
+	}
 	c.NInlined = n
 	for _, p := range c.All {
 		info := p.TypesInfo
@@ -208,6 +273,51 @@ func normaliseAST(c *Ctx) int {
 						fs.Body.List = body
 						n++
 						out := append([]ast.Stmt{}, list[:i-1]...)
+						out = append(out, list[i:]...)
+						return out
+					}
+				}
+				// ---- primed by two statements:  q = it.GetNext(); v, ok = q.Read(); for ok { body; q = it.GetNext(); v, ok = q.Read() }
+				if cid, isID := ast.Unparen(fs.Cond).(*ast.Ident); isID && i >= 2 && len(fs.Body.List) >= 3 && !hasOwnContinue(fs.Body) {
+					sameAssign := func(a, b ast.Stmt) ([]types.Object, bool, bool) {
+						x, ok1 := a.(*ast.AssignStmt)
+						y, ok2 := b.(*ast.AssignStmt)
+						if !ok1 || !ok2 || y.Tok != token.ASSIGN || (x.Tok != token.ASSIGN && x.Tok != token.DEFINE) || len(x.Lhs) != len(y.Lhs) || len(x.Rhs) != len(y.Rhs) {
+							return nil, false, false
+						}
+						var os []types.Object
+						for k := range x.Lhs {
+							o := identObj(info, x.Lhs[k])
+							if o == nil || identObj(info, y.Lhs[k]) != o {
+								return nil, false, false
+							}
+							os = append(os, o)
+						}
+						for k := range x.Rhs {
+							if types.ExprString(x.Rhs[k]) != types.ExprString(y.Rhs[k]) {
+								return nil, false, false
+							}
+						}
+						return os, x.Tok == token.DEFINE, true
+					}
+					nb := len(fs.Body.List)
+					o1, d1, ok1 := sameAssign(list[i-2], fs.Body.List[nb-2])
+					o2, d2, ok2 := sameAssign(list[i-1], fs.Body.List[nb-1])
+					isCond := false
+					for _, o := range o2 {
+						if info.Uses[cid] == o {
+							isCond = true
+						}
+					}
+					if ok1 && ok2 && isCond && !((d1 || d2) && usedIn(list[i+1:], append(o1, o2...)...)) {
+						guardCond := &ast.UnaryExpr{OpPos: fs.Cond.Pos(), Op: token.NOT, X: fs.Cond}
+						info.Types[guardCond] = types.TypeAndValue{Type: types.Typ[types.Bool]}
+						guard := &ast.IfStmt{If: fs.For, Cond: guardCond, Body: &ast.BlockStmt{List: []ast.Stmt{&ast.BranchStmt{TokPos: fs.For, Tok: token.BREAK}}}}
+						body := append([]ast.Stmt{list[i-2], list[i-1], guard}, fs.Body.List[:nb-2]...)
+						fs.Cond = nil
+						fs.Body.List = body
+						n++
+						out := append([]ast.Stmt{}, list[:i-2]...)
 						out = append(out, list[i:]...)
 						return out
 					}
